@@ -34,7 +34,7 @@ def tagged(label, pid):
 def functions_for(reg, pid):
     out = []
     for q, c in sorted(reg.contracts.items()):
-        if c.trusted or c.inline:
+        if c.trusted or c.inline or c.abstract:
             continue
         labels = list(c.ensures) + list(c.raises)
         if c.cls and c.cinv is not False:
